@@ -50,6 +50,9 @@ type c15Case struct {
 	Queries   []c15Query `json:"queries,omitempty"`
 	Verdicts  []bool     `json:"verdicts,omitempty"`
 	V5        bool       `json:"v5,omitempty"`
+	// kind "alias": publishes of one v5 connection, each with a topic number (0: none, alias only) and an alias
+	// (0: none); topic 9 is forbidden by the write ACL
+	Pubs [][2]int `json:"pubs,omitempty"`
 }
 
 type c15Obs struct {
@@ -62,6 +65,7 @@ type c15Obs struct {
 	Puback   []int    `json:"puback,omitempty"`
 	Suback   []int    `json:"suback,omitempty"`
 	Undisturbed bool  `json:"undisturbed,omitempty"`
+	Alias    []int    `json:"alias,omitempty"` // per publish: 10+topic routed there | 1 denied | 2 connection closed
 	Err      string   `json:"err,omitempty"`
 }
 
@@ -109,6 +113,39 @@ var c15Topics = []string{"r/a", "w/a", "x", "q", "xy"}
 func pat(prefix string) string { return "^" + prefix + ".*$" }
 
 func (p *c15Prop) Gen(r *Rng, i int, tier string) interface{} {
+	if i%9 == 8 {
+		// topic aliases under the write ACL: topic 9 is forbidden; topics with / without alias and alias-only
+		// publishes (also of aliases that were only ever used with the forbidden topic)
+		c := &c15Case{Kind: "alias", V5: true}
+		n := 3 + r.Intn(5)
+		for k := 0; k < n; k++ {
+			tp := []int{5, 6, 9, 9}[r.Intn(4)]
+			al := r.Intn(4)
+			switch x := r.Intn(10); {
+			case x < 4:
+				c.Pubs = append(c.Pubs, [2]int{tp, al})
+			case x < 6:
+				c.Pubs = append(c.Pubs, [2]int{tp, 0})
+			default:
+				// alias only: mostly an alias this connection has used before (also if only ever with the
+				// forbidden topic), sometimes one it never used (protocol error: the connection ends)
+				var used []int
+				for _, q := range c.Pubs {
+					if q[0] > 0 && q[1] > 0 {
+						used = append(used, q[1])
+					}
+				}
+				if len(used) > 0 && r.Chance(85) {
+					c.Pubs = append(c.Pubs, [2]int{0, used[r.Intn(len(used))]})
+				} else if len(used) == 0 && r.Chance(70) {
+					c.Pubs = append(c.Pubs, [2]int{[]int{5, 9}[r.Intn(2)], 1 + r.Intn(3)})
+				} else {
+					c.Pubs = append(c.Pubs, [2]int{0, 1 + r.Intn(3)})
+				}
+			}
+		}
+		return c
+	}
 	if i%3 == 2 {
 		n := 1 + r.Intn(3)
 		c := &c15Case{Kind: "chain", V5: r.Bool()}
@@ -206,6 +243,9 @@ func (p *c15Prop) Run(ci interface{}) interface{} {
 	c := ci.(*c15Case)
 	if c.Kind == "acl" {
 		return p.runACL(c)
+	}
+	if c.Kind == "alias" {
+		return p.runAlias(c)
 	}
 	obs := &c15Obs{}
 	var auths []*progAuth
@@ -349,6 +389,96 @@ func (p *c15Prop) Run(ci interface{}) interface{} {
 	return obs
 }
 
+func (p *c15Prop) runAlias(c *c15Case) interface{} {
+	obs := &c15Obs{Alias: []int{}}
+	auths := []*progAuth{{
+		password: func(_, _, _ string) bool { return true },
+		acl: func(_, user, topic string, write bool) bool {
+			return !(user == "tested" && write && strings.HasPrefix(topic, "al9/"))
+		},
+	}}
+	b, err := NewBroker(BrokerOpts{Auth: auths, MaxTopicAlias: 4})
+	if err != nil {
+		obs.Err = err.Error()
+		return obs
+	}
+	defer b.Drop()
+	wc := b.Dial()
+	if _, err := wc.Connect(ConnectOpts{ID: "watcher", Ver: mqttp.ProtocolV311, Clean: true, User: "other", Pass: "x"}); err != nil {
+		obs.Err = "watcher: " + err.Error()
+		return obs
+	}
+	w := wc.Auto(false)
+	_ = w.SendL(mkSubscribe(mqttp.ProtocolV311, 1, []string{"#"}, []byte{1}))
+	if !w.WaitFor(5*time.Second, func() bool { return len(w.Others) >= 1 }) {
+		obs.Err = "watcher: no suback"
+		return obs
+	}
+	tc := b.Dial()
+	if _, err := tc.Connect(ConnectOpts{ID: "T", Ver: mqttp.ProtocolV50, Clean: true, User: "tested", Pass: "pw"}); err != nil {
+		obs.Err = "tested: " + err.Error()
+		return obs
+	}
+	t := tc.Auto(false)
+	for k, pa := range c.Pubs {
+		topic := ""
+		if pa[0] > 0 {
+			topic = fmt.Sprintf("al%d/t", pa[0])
+		}
+		m := mqttp.NewPublish(mqttp.ProtocolV50)
+		_ = m.SetQoS(1)
+		if topic != "" {
+			_ = m.SetTopic(topic)
+		}
+		m.SetPayload([]byte{0xA1, byte(k)})
+		m.SetPacketID(mqttp.IDType(20 + k))
+		if pa[1] > 0 {
+			_ = m.PropertySet(mqttp.PropertyTopicAlias, uint16(pa[1]))
+		}
+		before := w.NPubs()
+		nack := len(t.Others)
+		if _, err := mqttp.Encode(m); err != nil {
+			obs.Err = "encode: " + err.Error()
+			return obs
+		}
+		_ = t.SendL(m)
+		t.WaitFor(5*time.Second, func() bool { return len(t.Others) > nack })
+		closed := t.Closed()
+		if !closed {
+			// barrier on the same connection
+			_ = t.SendL(mkPublish(mqttp.ProtocolV50, "marker/t", []byte{0xEE, byte(k)}, 0, false, 0))
+			w.WaitFor(5*time.Second, func() bool {
+				for _, x := range w.Pubs[before:] {
+					if x.Topic() == "marker/t" {
+						return true
+					}
+				}
+				return t.Closed()
+			})
+		} else {
+			time.Sleep(20 * time.Millisecond)
+		}
+		code := 1
+		w.mu.Lock()
+		for _, x := range w.Pubs[before:] {
+			if len(x.Payload()) == 2 && x.Payload()[0] == 0xA1 && x.Payload()[1] == byte(k) {
+				var tn int
+				fmt.Sscanf(x.Topic(), "al%d/t", &tn)
+				code = 10 + tn
+			}
+		}
+		w.mu.Unlock()
+		if code == 1 && t.Closed() {
+			code = 2
+		}
+		obs.Alias = append(obs.Alias, code)
+		if t.Closed() {
+			break
+		}
+	}
+	return obs
+}
+
 func (p *c15Prop) Suspect(oi interface{}) bool { return oi.(*c15Obs).Err != "" }
 
 func prefixOf(pattern string) string {
@@ -380,6 +510,17 @@ func (p *c15Prop) Coq(ci interface{}, oi interface{}) string {
 		}
 		return cList(it)
 	}
+	if c.Kind == "alias" {
+		ps := make([]string, len(c.Pubs))
+		for i, pa := range c.Pubs {
+			t := "None"
+			if pa[0] > 0 {
+				t = fmt.Sprintf("(Some %d%%N)", pa[0])
+			}
+			ps[i] = fmt.Sprintf("(%s, %d%%N)", t, pa[1])
+		}
+		return fmt.Sprintf("(CAlias %s %s %s)", cList(ps), cInts(o.Alias), cBool(o.Err == ""))
+	}
 	if c.Kind == "chain" {
 		return fmt.Sprintf("(CChain %s %s %d %s %s %s %s %s %s)", bools(c.Verdicts), cBool(c.V5), o.Connack, bools(o.Routed), bools(o.Retained), cInts(o.Puback), cInts(o.Suback), cBool(o.Undisturbed), cBool(o.Err == ""))
 	}
@@ -407,6 +548,9 @@ func (p *c15Prop) Coq(ci interface{}, oi interface{}) string {
 
 func (p *c15Prop) Class(ci interface{}, oi interface{}) (string, bool) {
 	c := ci.(*c15Case)
+	if c.Kind == "alias" {
+		return "alias", true
+	}
 	if c.Kind == "chain" {
 		return fmt.Sprintf("chain-%d", len(c.Verdicts)), true
 	}
